@@ -179,6 +179,8 @@ def run(ctx):
             "Lean 4.33.0 kernel; axioms within {propext, Classical.choice, Quot.sound}",
             "tools/extract_registry.py + tools/regprobe.py (registry enumeration by introspection, probe classification, AST scan)",
             "RunSpec abstraction of how emitters use a registry (validated by the byte-comparison oracle only)",
+            "Model/Lines.lean writeOutputFile + the directory-as-map model of open-for-write (tied by running the real write_output_file "
+            "into directories that already hold a version of the file)",
         ]
         ctx.cov["rule"] = ("correspondence: every (generic,c,cxx) slot shape x every language history up to length 4/6; oracle: "
                            "corpus + generated libraries, ordered pairs and random longer in-process sequences vs a fresh process, "
